@@ -63,10 +63,7 @@ pub fn read(mut reader: impl io::Read) -> io::Result<Value> {
 }
 
 fn read_typed<T: Element>(header: &Header, mut reader: impl io::Read) -> io::Result<Tensor<T>> {
-    let n_elements = header
-        .shape
-        .iter()
-        .try_fold(1usize, |acc, &dim| acc.checked_mul(dim))
+    let n_elements = crate::checked_element_count(&header.shape)
         .ok_or_else(|| invalid_data("array element count overflows"))?;
     let n_bytes = n_elements
         .checked_mul(T::ITEM_SIZE)
@@ -562,6 +559,32 @@ mod tests {
             let err = read(&bytes[..]).unwrap_err();
             assert_eq!(err.kind(), io::ErrorKind::InvalidData, "case: {case}");
         }
+    }
+
+    #[test]
+    fn test_read_npy_rejects_shapes_that_overflow() {
+        let cases = [
+            // Element count overflows.
+            "{'descr': '<i4', 'fortran_order': False, 'shape': (8589934592, 8589934592)}",
+            // Element count is zero, but the strides overflow.
+            "{'descr': '<i4', 'fortran_order': False, 'shape': (0, 8589934592, 8589934592)}",
+            "{'descr': '<i4', 'fortran_order': True, 'shape': (0, 8589934592, 8589934592)}",
+            "{'descr': '<i4', 'fortran_order': False, 'shape': (8589934592, 0, 8589934592)}",
+        ];
+
+        for case in cases {
+            let bytes = npy_with_header(case, &[]);
+            let err = read(&bytes[..]).unwrap_err();
+            assert_eq!(err.kind(), io::ErrorKind::InvalidData, "case: {case}");
+        }
+
+        // Empty arrays whose shape does not overflow can be read.
+        let bytes = npy_with_header(
+            "{'descr': '<i4', 'fortran_order': False, 'shape': (0, 1024, 1024)}",
+            &[],
+        );
+        let read = read(&bytes[..]).unwrap().into_type::<i32>().unwrap();
+        assert_eq!(read.shape(), &[0, 1024, 1024]);
     }
 
     #[test]
